@@ -47,7 +47,7 @@ func (*c09World) Info() kernel.WorldInfo {
 			"and for every JSON path {delete key, null, wrong type, non-hex, odd hex, [null]} plus torn documents at every offset; SEEDED: bit flips (exhaustive over all bits in thorough tier for streams <= 200 bytes), sticky reader errors at offsets biased to field boundaries (with and without bytes in the same call), 3 delivery plans per run. " +
 			"distinct = distinct (entry point, fault kind, fault position class [field name or offset], outcome class) tuples; every injected fault is non-trivial by construction (fault-free decoding is C01).",
 		Assumptions: []string{
-			"allocation bound is 1 MiB + 64 x bytes supplied, measured as runtime.MemStats.TotalAlloc delta around the call in a single-threaded worker",
+			"allocation bound is 8 MiB + 64 x bytes supplied (loose on purpose: a decoder reading in chunks of up to a few MiB is fine; allocating what a prefix claims is not — every inflation >= 2^26 exceeds it by far), measured as runtime.MemStats.TotalAlloc delta around the call in a single-threaded worker",
 			"allocation failure cannot be injected into a Go program; the worker's address space is capped at 12 GiB so that a multi-GiB allocation kills the worker, which the journal turns into a reported violation",
 			"readers honour the io.Reader contract (at most two zero-length reads in a row)",
 		},
@@ -226,7 +226,7 @@ func judge(c *kernel.RunCtx, r c09Res, fault string, mustFail bool, injectedErr 
 		return
 	}
 	if metered {
-		bound := uint64(1<<20) + 64*uint64(r.supplied)
+		bound := uint64(8<<20) + 64*uint64(r.supplied)
 		if r.alloc > bound {
 			c.Fail("alloc", site, "%s allocated %d bytes for %d supplied bytes (bound %d) on %s", r.ep, r.alloc, r.supplied, bound, fault)
 			return
@@ -740,7 +740,7 @@ func (w *c09World) runJSON(c *kernel.RunCtx, tg jsonTarget, doc []byte, fault, c
 		c.Fail("panic", tg.name, "%s panicked on %s: %s; document: %s", tg.name, fault, pn, clip(string(doc), 300))
 		return
 	}
-	if bound := uint64(1<<20) + 64*uint64(len(doc)); alloc > bound {
+	if bound := uint64(8<<20) + 64*uint64(len(doc)); alloc > bound {
 		c.Fail("alloc", tg.name, "%s allocated %d bytes for a %d-byte document (bound %d) on %s", tg.name, alloc, len(doc), bound, fault)
 	}
 }
